@@ -70,7 +70,7 @@ METRIC_EXPRS = [None, 'len(locals())', '1/0', '"text"', '7']
 KINDS = ['snapshot', 'snapshot', 'log', 'metric', 'span_line', 'span_method', 'method', 'snapshot_log']
 FUNCS = {'calls': ['leaf', 'mid'], 'recursion': ['fact', 'fib'], 'exceptions': ['risky', 'guarded'],
          'generators': ['squares', '__next__'], 'threads': ['work'], 'dunders': ['touch'], 'seeded_random': ['draw'],
-         'finalizers': ['use'], 'classes': ['deposit', 'fee', 'inc'], 'data': ['build', 'mutate'], 'loops': ['scan'],
+         'finalizers': ['use'], 'finalizers_nogc': ['use'], 'classes': ['deposit', 'fee', 'inc'], 'data': ['build', 'mutate'], 'loops': ['scan'],
          'ghost': ['handle', 'helper']}
 
 
@@ -112,6 +112,10 @@ def corpus():
         # D1: method tracepoint without method_name on a module whose source is unavailable
         {'kind': 'scenario', 'prog': 'ghost', 'inp': 1,
          'tps': [{'id': 'tp0', 'kind': 'method', 'mark': 'A', 'fire_count': '-1', 'method_name': None, 'watches': []}]},
+        # f435761: the nameless method tracepoint cannot be matched (no source); the other tracepoint of the file fires
+        {'kind': 'scenario', 'prog': 'ghost', 'inp': 1, 'expect_logs': {'tp1': 1},
+         'tps': [{'id': 'tp0', 'kind': 'method', 'mark': 'A', 'fire_count': '-1', 'method_name': None, 'watches': []},
+                 {'id': 'tp1', 'kind': 'log', 'mark': 'B', 'fire_count': '-1', 'log_msg': 'v={v}'}]},
         # D2 / the probe of notes/probes/c01_callback_fault_dead_thread.py: a span that fails to close (either class),
         # and a later tracepoint of the same thread
         {'kind': 'scenario', 'prog': 'calls', 'inp': 2, 'plugin_faults': {'close': 'base'},
@@ -142,12 +146,30 @@ def corpus():
 SHARE = {'action': 0.40, 'callbacks': 0.15, 'results': 0.15, 'other': 0.30}
 
 
+NOGC = {'kind': 'scenario', 'prog': 'finalizers_nogc', 'inp': 1, 'stream': 'nogc',
+        'tps': [{'id': 'tp0', 'kind': 'snapshot', 'mark': 'B', 'fire_count': '-1', 'watches': [], 'frame_type': 'single_frame'}]}
+
+
+def known_replays():
+    return [('C01/finalisation-delayed-until-gc',
+             'a snapshot keeps the locals of the paused frame alive until the next cyclic gc: a host that relies on '
+             'reference-count finalisation (no gc.collect()) sees __del__/weakref.finalize run later than without the agent',
+             dict(NOGC))]
+
+
+def known_finding(case, obs):
+    # structural: the host relies on refcount finalisation without calling gc.collect() (labelled stream only)
+    if case.get('prog') in hostprogs.KNOWN_FINDING_PROGRAMS:
+        return 'C01/finalisation-delayed-until-gc'
+    return None
+
+
 def faults_for(rng, sc, m):
     """fault cases of a scenario whose fault-free run is known: call indices spread over the regions of the handler
     (action processing / callback processing / result processing / matching and the rest), both classes"""
     key = core.canon(scenario_of(sc))
     n_calls = G()['counts'].get(key)
-    if not n_calls:
+    if not n_calls or sc.get('stream'):
         return
     by = G()['by_region'].get(key) or {'other': list(range(1, n_calls + 1))}
     ks = set()
@@ -169,14 +191,23 @@ def gen(rng, tier):
     m = 26 if tier == 'quick' else 120
     for sc in corpus():
         yield from faults_for(rng, sc, m)
+    n = 0
     while True:
+        n += 1
+        if n % 9 == 0:
+            # separate labelled stream (known finding): refcount finalisation without gc.collect()
+            c = dict(NOGC)
+            c['inp'] = rng.randint(0, 3)
+            c['tps'] = [dict(NOGC['tps'][0], mark=rng.choice(['A', 'B']), frame_type=rng.choice(['single_frame', 'all_frame']))]
+            yield c
+            continue
         sc = random_scenario(rng)
         yield sc
         yield from faults_for(rng, sc, m)
 
 
 def scenario_of(case):
-    return {k: v for k, v in case.items() if k not in ('kind', 'fault')}
+    return {k: v for k, v in case.items() if k not in ('kind', 'fault', 'stream', 'expect_logs')}
 
 
 # --------------------------------------------------------------------------------------------- running
@@ -194,9 +225,13 @@ def canon_val(v):
     return repr(v)
 
 
-def run_host(mod, inp, trace=None, after=None):
-    """run main(inp, emit) on a fresh thread; `trace` = the trace function to install (None: untraced)."""
+def run_host(mod, inp, trace=None, after=None, nogc=False):
+    """run main(inp, emit) on a fresh thread; `trace` = the trace function to install (None: untraced).
+    nogc: the cyclic collector is switched off while the host runs (known-finding stream: only reference counting)"""
     res = {'out': []}
+    if nogc:
+        gc.collect()
+        gc.disable()
 
     def body():
         if trace is not None:
@@ -212,8 +247,12 @@ def run_host(mod, inp, trace=None, after=None):
         finally:
             sys.settrace(None)
     t = threading.Thread(target=body)
-    t.start()
-    t.join(60)
+    try:
+        t.start()
+        t.join(60)
+    finally:
+        if nogc:
+            gc.enable()
     if t.is_alive():
         raise core.Infra('host program did not finish in 60 s')
     return res
@@ -223,7 +262,7 @@ def baseline(prog, inp):
     b = G()['base']
     key = f'{prog}:{inp}'
     if key not in b:
-        b[key] = run_host(G()['hosts'].modules[prog], inp)
+        b[key] = run_host(G()['hosts'].modules[prog], inp, nogc=prog in hostprogs.KNOWN_FINDING_PROGRAMS)
     return b[key]
 
 
@@ -331,7 +370,8 @@ def agent_run(case, fault):
     faultinj.arm(fault['k'] if fault else None, fault['cls'] if fault else 'exc', record=fault is None)
     threading.settrace(handler.trace_call)
     try:
-        res = run_host(h.modules[case['prog']], case['inp'], handler.trace_call, after)
+        res = run_host(h.modules[case['prog']], case['inp'], handler.trace_call, after,
+                       nogc=case['prog'] in hostprogs.KNOWN_FINDING_PROGRAMS)
         rep = faultinj.report()
         faultinj.arm(None)
         n_same = len([e for e in rec.events if e[1] == 'log' and e[2][0] == 'probe'])
@@ -467,16 +507,24 @@ def oracle(case, obs):
         v.append('a later tracepoint of the same thread no longer fires (tracing silently off for the thread)')
     if not obs['probe_new']:
         v.append('a tracepoint hit in a new thread does not fire')
-    if case['kind'] == 'fault' and obs['fired'] and (obs['region'] or '').startswith('action:') \
-            and not case.get('plugin_faults'):
-        victim = obs['region'].split(':', 1)[1]
+    reg = obs.get('region') or ''
+    isolated = reg.startswith('action:') or (reg.startswith('match:') and case.get('fault', {}).get('cls') == 'exc')
+    if case['kind'] == 'fault' and obs['fired'] and isolated and not case.get('plugin_faults'):
+        # a failure while processing one action (either class), or while matching one trigger (Exception class),
+        # costs only the tracepoint(s) concerned
+        victims = set(reg.split(':', 1)[1].split(','))
+        what = 'processing the action of' if reg.startswith('action:') else 'matching the trigger of'
         for tp in sorted(set(obs['ref_effects']) | set(obs['effects'])):
-            if tp in (victim, 'probe'):
+            if tp in victims or tp == 'probe':
                 continue
             if obs['effects'].get(tp) != obs['ref_effects'].get(tp):
-                v.append(f'a failure while processing the action of {victim} changed the effects of {tp}: '
+                v.append(f'a failure while {what} {sorted(victims)} changed the effects of {tp}: '
                          f'{json.dumps(obs["effects"].get(tp))[:200]} vs {json.dumps(obs["ref_effects"].get(tp))[:200]}')
                 break
+    for tp, n in ((case.get('expect_logs') or {}) if case['kind'] == 'scenario' else {}).items():
+        got = len((obs['effects'].get(tp) or {}).get('logs', []))
+        if got < n:
+            v.append(f'tracepoint {tp} logged {got} times, expected at least {n}')
     return v
 
 
@@ -509,6 +557,8 @@ def compare(case, obs, resp):
 
 
 def label(case, obs):
+    if case.get('stream'):
+        return 'known-finding-stream/' + case['stream']
     if case['kind'] == 'fault':
         if not obs['fired']:
             return 'fault/not-reached'
